@@ -898,7 +898,46 @@ def np_vstack(I, seq):
     arrs = [x if isinstance(x, Arr) else np_array(I, x) for x in items]
     if all(len(a.shape) == 1 for a in arrs):
         return np_array(I, VList(arrs))
-    raise Unsupported('vstack of 2-D arrays')
+    return np_concatenate(I, VList(arrs))
+
+
+def np_concatenate(I, seq, axis=0, **kw):
+    """concatenation along axis 0 (lengths may be symbolic): element i comes from the piece whose index range contains i"""
+    Bm = _B()
+    if axis != 0:
+        raise Unsupported('concatenate along axis != 0')
+    arrs = [x if isinstance(x, Arr) else np_array(I, x) for x in I.iterate(seq)]
+    if not arrs:
+        I.throw('ValueError', 'need at least one array to concatenate')
+    rank = len(arrs[0].shape)
+    for a in arrs[1:]:
+        if len(a.shape) != rank:
+            I.throw('ValueError', 'all the input arrays must have same number of dimensions')
+        for d1, d2 in zip(arrs[0].shape[1:], a.shape[1:]):
+            r = Bm.equal(I, d1, d2)
+            if r is False:
+                I.throw('ValueError', 'all the input array dimensions except for the concatenation axis must match exactly')
+            if r is not True:
+                I.ctx.oblige('numpy.concatenate: trailing dimensions agree', zbool(r))
+    offs = [0]
+    for a in arrs:
+        offs.append(Bm.num_binop(I, '+', offs[-1], a.shape[0]))
+
+    def fn(idx):
+        i = idx[0]
+        r = arrs[-1].fn((Bm.num_binop(I, '-', i, offs[len(arrs) - 1]),) + tuple(idx[1:]))
+        for j in range(len(arrs) - 2, -1, -1):
+            inj = mk(zint(i) < zint(offs[j + 1]), 'bool') if (isinstance(i, Sym) or isinstance(offs[j + 1], Sym)) else (i < offs[j + 1])
+            r = Bm.ite(I, inj, arrs[j].fn((Bm.num_binop(I, '-', i, offs[j]),) + tuple(idx[1:])), r)
+        return r
+    return Arr((offs[-1],) + tuple(arrs[0].shape[1:]), fn, Bm.result_dtype(arrs[0], arrs[-1]))
+
+
+def np_hstack(I, seq):
+    arrs = [x if isinstance(x, Arr) else np_array(I, x) for x in I.iterate(seq)]
+    if all(len(a.shape) == 1 for a in arrs):
+        return np_concatenate(I, VList(arrs))
+    raise Unsupported('hstack of N-D arrays')
 
 
 def np_copy(I, a):
@@ -959,8 +998,7 @@ def make(I):
         shape=F('shape', lambda I, x: () if not isinstance(x, Arr) else tuple(x.shape)),
         size=F('size', lambda I, x: 1 if not isinstance(x, Arr) else arr_getattr(I, x, 'size')),
         transpose=F('transpose', lambda I, a: transpose(I, a)),
-        concatenate=F('concatenate', lambda I, *a, **k: _unsup('np.concatenate')),
-        hstack=F('hstack', lambda I, *a, **k: _unsup('np.hstack')),
+        concatenate=F('concatenate', np_concatenate), hstack=F('hstack', np_hstack),
     )
     return ModuleNS('numpy', ns)
 
